@@ -120,6 +120,7 @@ type opRun struct {
 	n       int64
 	err     error
 	callerNil bool // the call returned a nil error to its caller
+	cancelledWaiting bool // its context ended while it was parked waiting for queue space
 	inPos   int // position in the parsed stream (-1 = absent)
 	touched bool // the writer itself called the transport during this op (sync mode)
 }
@@ -156,6 +157,8 @@ type chanWorld struct {
 	faultsUsed   int
 	closersDone  map[string]bool
 
+	accOrder   []*opRun          // ops in the order their packet entered the queue (observed)
+	prevLoc    map[string]string // writer -> location after the previous step
 	parsedOff  int
 	parsed     []*opRun
 	fails      []Fail
@@ -299,6 +302,11 @@ func (w *chanWorld) writerMain(ws WriterSpec) func() {
 			case "dead":
 				c, cancel := context.WithCancel(context.Background())
 				cancel()
+				ctx = c
+			case "far":
+				// a context with a deadline that never arrives during the run
+				c, cancel := context.WithDeadline(context.Background(), time.Now().Add(time.Hour))
+				defer cancel()
 				ctx = c
 			case "mortal":
 				c, cancel := context.WithCancel(context.Background())
@@ -456,6 +464,20 @@ func (w *chanWorld) oracleStep(noFault bool) {
 			}
 		}
 	}
+	// acceptance order (queued channel): the transport log is a prefix of the payloads in the order
+	// they entered the queue
+	if noFault && w.c.QSize > 0 {
+		for i, op := range w.parsed {
+			if i >= len(w.accOrder) {
+				break
+			}
+			if w.accOrder[i] != op {
+				a := w.accOrder[i]
+				w.fail("C01", "acceptance-order", fmt.Sprintf("transport position %d holds %s.%d but %s.%d was accepted %d-th (lost, reordered or overtaken)", i, op.w, op.idx, a.w, a.idx, i))
+				break
+			}
+		}
+	}
 	// prefix: an accepted payload is not overtaken by one that began after it returned
 	if noFault {
 		for _, a := range ops {
@@ -548,7 +570,7 @@ func runChanCase(c *ChanCase) *ChanResult {
 		c: c, s: s, ops: map[string][]*opRun{}, byID: map[byte]*opRun{}, rets: map[string][]string{},
 		cancels: map[string]context.CancelFunc{}, closeErr: map[string]error{}, failKeys: map[string]bool{},
 		firstRead: -1, serveRet: -1, closeRetStep: -1, winnerRet: -1, closeInvoked: -1,
-		closersDone: map[string]bool{}, ctxErrSeen: map[string]bool{}, excOn: map[string]error{}, lowErr: map[string]error{},
+		closersDone: map[string]bool{}, ctxErrSeen: map[string]bool{}, excOn: map[string]error{}, lowErr: map[string]error{}, prevLoc: map[string]string{},
 	}
 	netty.VerifHook = func(obj interface{}, point string) { s.Gate(obj, point) }
 	w.tr = mock.NewTransport(s)
@@ -681,12 +703,29 @@ func runChanCase(c *ChanCase) *ChanResult {
 		} else if kind == "cancel" {
 			ev.A = "env.cancel"
 			w.ctxErrSeen[proc] = true
+			var waiting *opRun
+			if s.Loc(proc) == "parked" {
+				for _, op := range w.ops[proc] {
+					if op.ret < 0 {
+						if op.spec.Ctx == "mortal" && op.began >= 0 {
+							waiting = op
+						}
+						break
+					}
+				}
+			}
 			if cancel := w.cancels[proc]; cancel != nil {
 				cancel()
 			}
 			if err := s.Settle(); err != nil {
 				res.HarnessErr = err.Error()
 				break
+			}
+			if waiting != nil {
+				waiting.cancelledWaiting = true
+				if s.Loc(proc) == "parked" && len(w.rets[proc]) < waiting.idx {
+					w.fail("C18", "cancel-ignored", fmt.Sprintf("%s.%d (%s) keeps waiting for queue space although its context ended", proc, waiting.idx, waiting.spec.Kind))
+				}
 			}
 		} else {
 			gate := s.Loc(proc)
@@ -755,6 +794,21 @@ func runChanCase(c *ChanCase) *ChanResult {
 				}
 			}
 		}
+		// acceptance order: a writer that now stands before its CAS has just put its packet into the queue
+		for _, ws := range c.Writers {
+			loc := s.Loc(ws.Name)
+			if loc == "w.cas" && w.prevLoc[ws.Name] != "w.cas" {
+				for _, op := range w.ops[ws.Name] {
+					if op.ret < 0 {
+						if len(op.payload) > 0 {
+							w.accOrder = append(w.accOrder, op)
+						}
+						break
+					}
+				}
+			}
+			w.prevLoc[ws.Name] = loc
+		}
 		res.Actions[ev.A]++
 		res.Sched = append(res.Sched, []string{kind, proc, ev.A})
 		// returns observed after this step
@@ -763,6 +817,9 @@ func runChanCase(c *ChanCase) *ChanResult {
 			for i := lastRetLen[ws.Name]; i < n; i++ {
 				op := w.ops[ws.Name][i]
 				op.ret = w.step
+				if op.cancelledWaiting && op.res == "ok" {
+					w.fail("C18", "cancel-ignored-result", fmt.Sprintf("%s.%d (%s) was accepted although its context ended while it waited for space", op.w, op.idx, op.spec.Kind))
+				}
 				if op.res == "terr" && !op.touched {
 					// a transport error the writer did not cause itself is the stored close
 					// error of a channel closed by a failing sender or reader
